@@ -61,7 +61,7 @@ def gen_case(rng, i=None, shard=0):
         opts['max_permutation_cases'] = rng.choice([3, 4, 6])
         subset |= 64
     entry = rng.choice(['check_strings', 'check_strings', 'string', 'file', 'files'])
-    case = {'opts': opts, 'subset': subset, 'entry': entry, 'muts': muts}
+    case = {'opts': opts, 'subset': subset, 'entry': entry, 'muts': muts, 'spell_ignore_lines': rng.random() < 0.3}
     if entry == 'file' and rng.random() < 0.15:
         case['names'] = rng.choice([['out.txt', 'ref.pdf'], ['out.pdf', 'ref.pdf'], ['out.dat', 'ref.csv'], ['OUT.TXT', 'ref.PDF'], ['out.csv', 'ref.pdf']])
     if entry == 'check_strings':
@@ -83,6 +83,9 @@ def run_case(ctx, case):
     o = case['opts']
     ro = T.real_opts(o)
     oo = dict(ro)
+    if case.get('spell_ignore_lines') and 'remove_lines' in ro and case['entry'] != 'check_strings':
+        ro['ignore_lines'] = ro.pop('remove_lines')       # the documented older spelling of remove_lines
+        rec.event('options:ignore_lines_spelling')
     if 'preprocess' in oo:
         oo['preprocess_fn'] = oo.pop('preprocess')
     entry = case['entry']
